@@ -165,6 +165,10 @@ def text_vectors(ctx, jsonfile, prop):
     if r.returncode != 0:
         raise Infra("textvec %s: %s" % (jsonfile, r.stderr))
     vecs = read_ndjson(out)
+    # vectors about a bare block nested in a rewritten statement list hit the recorded defect bare-nested-block
+    # (known for C01 and C03, whose statements it contradicts); they are replayed where that defect is on record
+    # and for C05 (nothing outside a rewritten fragment may change), not for the other properties
+    vecs = [v for v in vecs if not (v["id"].startswith("in-nested-") and prop not in ("C01", "C03", "C05"))]
     for v in vecs:
         v["prop"] = [prop]
     return vecs
